@@ -65,9 +65,6 @@ theorem defs_paths_both_walked :
     jsonSchemaPaths.contains "#/definitions" = true ∧ jsonSchemaPaths.contains "#/$defs" = true ∧
     openapiSchemaPaths.contains "#/components/schemas" = true := by decide
 
-/-- the root keys the JSON-Schema walk looks at, from the generated table -/
-def containerKeys : List String := jsonSchemaPathsSplit.filterMap (fun p => match p with | [k] => some k | _ => none)
-
 /-- The same non-empty set of named schemas held under `definitions` or under `$defs` is the set
 that is walked, whatever the set is. -/
 theorem defs_equiv {β : Type} (d : β) (ds : List β) :
